@@ -1569,37 +1569,48 @@ class Interp:
         return -1
 
     def s_While(self, n):
+        """Loop cut with a *guarded* invariant: the sidecar invariant has to hold at every loop head at which the guard is true (the states
+        from which another iteration starts).  Exit states are covered exactly: the pre-state when the guard is false on entry, the
+        state at a `break`, and the state after a body execution (from an arbitrary invariant state) that makes the guard false.
+        So `while True: ...; if c: break` and `done = False; while not done: ...; done = c` are cut by the same invariant."""
         spec = self.loop_spec(n)
         if spec is None:
             self.unsupported("while loop without an invariant in the sidecar contract", n)
         p = self.path
         fn = self.frame.func.qualname
         k = self.loop_ordinal(self.frame.func, n)
-        # 1. invariant holds on entry
+        # 0. guard false on entry: the loop is skipped from the concrete pre-state
+        t0 = self.truth(self.ev(n.test), n.test)
+        if not p.branch(t0):
+            p.cover(f"{fn}:loop{k}:skipped")
+            self.exec_block(n.orelse)
+            return
+        # 1. invariant holds on entry (guard true)
         for nm, g in spec.inv(self):
             p.prove(g, f"{fn}:loop{k}:inv-init:{nm}", kind="loop-invariant")
-        which = p.choose(2, "loop")
-        # havoc everything the loop may modify, assume the invariant
+        # 2. an arbitrary iteration: havoc everything the loop may modify, assume the invariant and the guard
+        before = dict(self.frame.env)
         spec.havoc(self)
+        self.havoc_unlisted_loop_locals(n, before)
         for nm, g in spec.inv(self):
             p.assume(g)
         if spec.at_head is not None:
             spec.at_head(self)
-        c = self.ev(n.test)
-        t = self.truth(c, n.test)
-        if which == 0:
-            # one arbitrary iteration
-            p.assume(t)
-            p.cover(f"{fn}:loop{k}:body-reachable")
-            v0 = spec.variant(self) if spec.variant is not None else None
-            try:
-                self.exec_block(n.body)
-            except BreakSig:
-                if spec.at_break is not None:
-                    spec.at_break(self)
-                return
-            except ContinueSig:
-                pass
+        t = self.truth(self.ev(n.test), n.test)
+        p.assume(t)
+        p.cover(f"{fn}:loop{k}:body-reachable")
+        v0 = spec.variant(self) if spec.variant is not None else None
+        try:
+            self.exec_block(n.body)
+        except BreakSig:
+            if spec.at_break is not None:
+                spec.at_break(self)
+            return
+        except ContinueSig:
+            pass
+        t1 = self.truth(self.ev(n.test), n.test)
+        if p.branch(t1):
+            # another iteration follows: the invariant is re-established and the variant has decreased
             for nm, g in spec.inv(self):
                 p.prove(g, f"{fn}:loop{k}:inv-preserved:{nm}", kind="loop-invariant")
             if spec.body_end is not None:
@@ -1609,10 +1620,29 @@ class Interp:
                 for nm, g in spec.decreases(self, v0):
                     p.prove(g, f"{fn}:loop{k}:variant:{nm}", kind="termination")
             raise PathEnd()
-        else:
-            p.assume(z3.Not(t))
-            p.cover(f"{fn}:loop{k}:exit-reachable")
-            self.exec_block(n.orelse)
+        # the guard has become false: this iteration was the last one; continue after the loop from this state
+        p.cover(f"{fn}:loop{k}:exit-reachable")
+        if spec.at_break is not None:
+            spec.at_break(self)
+        elif spec.body_end is not None:
+            for nm, g in spec.body_end(self):
+                p.prove(g, f"{fn}:loop{k}:body(last iteration):{nm}", kind="loop-body")
+        self.exec_block(n.orelse)
+
+    def havoc_unlisted_loop_locals(self, n, before):
+        """scalars assigned in the loop body that the sidecar's havoc did not rebind get a fresh unknown value of the same kind (a stale
+        pre-loop value would be unsound); other kinds of value are left to the sidecar"""
+        env = self.frame.env
+        assigned = set()
+        for st in ast.walk(n):
+            if isinstance(st, ast.Name) and isinstance(st.ctx, ast.Store):
+                assigned.add(st.id)
+        for nm in sorted(assigned):
+            if nm in env and nm in before and env[nm] is before[nm] and isinstance(env[nm], Z):
+                v = env[nm]
+                c = {"int": z3.Int, "real": z3.Real, "bool": z3.Bool}.get(v.kind)
+                if c is not None:
+                    env[nm] = Z(c(fresh(f"loopvar_{nm}")), v.kind)
 
 
 class SuperProxy(V):
